@@ -295,6 +295,23 @@ func judge(oc *harnessOutcome, rp *Replayer, known []KnownFinding, prop string, 
 					found = true
 				}
 			}
+			// differential check of noted values (translator validation)
+			if found {
+				want := hr.WitnessNotes[site]
+				for i, n := range want {
+					if strings.HasSuffix(n, "=?") {
+						continue
+					}
+					if i >= len(r.Notes) || r.Notes[i] != n {
+						got := "<missing>"
+						if i < len(r.Notes) {
+							got = r.Notes[i]
+						}
+						reasons = append(reasons, fmt.Sprintf("NOTE-MISMATCH at %s: engine %s native %s inputs=%v", site, n, got, hr.Witness[site]))
+						break
+					}
+				}
+			}
 			if !found {
 				reasons = append(reasons, fmt.Sprintf("witness for %s did not reach it natively (assume_failed=%v missing=%s panic=%s)", site, r.AssumeFailed, r.MissingInput, firstLine(r.Panic)))
 			}
